@@ -3,14 +3,15 @@ CONSTANTS
   Sigs = {"traces", "metrics"}
   Reqs = {1, 2}
   Variant = "real"
-  Configs = {"gh"}
+  Configs = {"gh", "g", "h"}
   Kinds = {"same"}
-  MaxLen = 16
+  MaxLen = 15
   MaxProbe = 0
   MaxHold = 0
   MaxSd = 2
   GSet = {1}
 CONSTRAINT Bound
+VIEW View
 ACTION_CONSTRAINT InOrder
 ACTION_CONSTRAINT ServeOrder
 INVARIANT TypeOK
